@@ -50,6 +50,46 @@ INH = {("Command", "new"): (31, "val", ["PositionDerivative", "f32"], False),
        ("Quantity", "new"): (32, "val", ["f32", "Unit"], False), ("Quantity", "dimensionless"): (33, "val", ["f32"], False),
        ("Time", "new"): (25, "val", ["i64"], False), ("DimensionlessInteger", "new"): (26, "val", ["i64"], False)}
 
+# the unit algebra: bodies selected by the dimension-check cfg; translated once per configuration (rustmini.strip_cfg) and
+# joined by `if chk c`
+UNIT_BIN = ["Add", "Sub", "Mul", "Div", "AddAssign", "SubAssign", "MulAssign", "DivAssign", "Neg"]
+UNIT_INH = {("Unit", "new"): (34, "val", ["i8", "i8"], False),
+            ("Unit", "eq_assume_true"): (41, "val", ["Unit"], True), ("Unit", "eq_assume_false"): (42, "val", ["Unit"], True),
+            ("Unit", "assert_eq_assume_ok"): (43, "unit", ["Unit"], True), ("Unit", "assert_eq_assume_not_ok"): (44, "unit", ["Unit"], True),
+            ("Unit", "const_eq"): (40, "val", ["Unit"], True), ("Unit", "const_assert_eq"): (45, "unit", ["Unit"], True)}
+TY["i8"] = ("Z", "VI", "I8")
+
+
+def unit_targets(fns_t, fns_f):
+    out = []
+    def both(ty, fn, trait, targs):
+        r = []
+        for fns in (fns_t, fns_f):
+            hit = None
+            for e in fns.get((ty, fn), []):
+                if e["trait"] == trait and (targs is None or e["targs"] == targs):
+                    hit = e
+            r.append(hit)
+        return r
+    for tr in UNIT_BIN:
+        et, ef = both("Unit", FNAME[tr], tr, None)
+        if et is None or ef is None: raise ParseError("impl %s for Unit not found" % tr)
+        args = [("self", "Unit")] + ([(et["params"][0], "Unit")] if tr != "Neg" else [])
+        out.append({"name": "g_%s_U%s" % (tr, "U" if tr != "Neg" else ""), "entry": et, "entry_f": ef, "self_type": "Unit",
+                    "opcode": BIN.get(tr, 9), "args": args, "runner": "self" if tr.endswith("Assign") else "val", "what": "impl %s for Unit" % tr, "dual": True})
+    et, ef = both("Unit", "from", "From", ["PositionDerivative"])
+    if et is None or ef is None: raise ParseError("impl From<PositionDerivative> for Unit not found")
+    out.append({"name": "g_From_P_U", "entry": et, "entry_f": ef, "self_type": "Unit", "opcode": 29, "args": [(et["params"][0], "PositionDerivative")],
+                "runner": "val", "what": "impl From<PositionDerivative> for Unit", "dual": True})
+    for (ty, fn), (op, runner, argt, has_self) in UNIT_INH.items():
+        et, ef = both(ty, fn, None, None)
+        if et is None: raise ParseError("%s::%s not found" % (ty, fn))
+        args = ([("self", ty)] if has_self else []) + list(zip(et["params"], argt))
+        out.append({"name": "g_U_%s" % fn, "entry": et, "entry_f": ef, "self_type": ty, "opcode": op, "args": args, "runner": runner,
+                    "what": "%s::%s" % (ty, fn), "dual": True})
+    return out
+
+
 HDR = """(* GENERATED by tools/gen_ops.py from %s - do not edit *)
 From Coq Require Import ZArith Bool List String.
 From RRTK Require Import Num.Num Model.Values Model.Prog Model.MiniRust.
@@ -61,10 +101,14 @@ Context {F : Type} {NF : Num F}.
 """
 
 
-def load(repo):
+def load(repo, chk=None):
+    """chk = None: the source as it is (attributes ignored); True / False: with the items, statements and struct-literal fields
+    that the dimension-check cfg removes in that configuration taken out"""
     fns, enums = {}, {}
     for f in FILES:
         t = rustmini.tokenize(open(os.path.join(repo, f)).read())
+        if chk is not None:
+            t = rustmini.strip_cfg(t, chk)
         rustmini.scan_items(t, 0, len(t), fns, enums)
     return fns, enums
 
@@ -112,11 +156,24 @@ def main(repo, outdir, consts):
     os.makedirs(outdir, exist_ok=True)
     out = [HDR % ", ".join(FILES)]
     tg = targets(fns)
+    fns_t, enums_t = load(repo, True)
+    fns_f, enums_f = load(repo, False)
+    tg += unit_targets(fns_t, fns_f)
     for t in tg:
         try:
-            ast = rustmini.parse_fn(t["entry"]["toks"])
-            em = rustmini.Emitter(fns, enums, consts, t["self_type"])
-            term = em.expr(ast)
+            if t.get("dual"):
+                terms = []
+                for (fx, ex_, e) in ((fns_t, enums_t, t["entry"]), (fns_f, enums_f, t["entry_f"])):
+                    if e is None:
+                        terms.append('(EVar "%absent")')      # the function does not exist in this configuration: ill-typed
+                        continue
+                    em = rustmini.Emitter(fx, ex_, consts, t["self_type"])
+                    terms.append(em.expr(rustmini.parse_fn(e["toks"])))
+                term = "if chk c then\n    %s\n  else\n    %s" % (terms[0], terms[1])
+            else:
+                ast = rustmini.parse_fn(t["entry"]["toks"])
+                em = rustmini.Emitter(fns, enums, consts, t["self_type"])
+                term = em.expr(ast)
         except ParseError as ex:
             raise ParseError("%s: %s" % (t["what"], ex))
         out.append("(* %s *)\nDefinition %s (c : cfg) : @mexpr F :=\n  %s.\n" % (t["what"], t["name"], term))
@@ -156,8 +213,9 @@ def theorems(tg):
         ops = "; ".join("%s %s" % (TY[ty][1], v) for v, (_, ty) in zip(vs, t["args"]))
         thm = "ops_" + t["name"][2:]
         names.append(thm)
-        out.append("(* %s *)\nTheorem %s %s :\n  run_%s c (%s c) [%s] = apply_op c %d [%s].\nProof. ops_tac. Qed.\n"
-                   % (t["what"], thm, binders, t["runner"], t["name"], env, t["opcode"], ops))
+        proof = "unit_tac c." if t.get("dual") else "ops_tac."
+        out.append("(* %s *)\nTheorem %s %s :\n  run_%s c (%s c) [%s] = apply_op c %d [%s].\nProof. %s Qed.\n"
+                   % (t["what"], thm, binders, t["runner"], t["name"], env, t["opcode"], ops, proof))
     out.append("End OpsTable.\n")
     out += ["Print Assumptions %s." % n for n in names]
     return "\n".join(out) + "\n"
